@@ -580,7 +580,8 @@ pub fn run(tier: &Tier) -> i32 {
     // (e) the comment layer lives in the driver: same programs with comments, through the binary
     ensure_bin();
     let base = Program {
-        data: vec![b::db(Some("x"), 5), b::dw(Some("y"), 0x1234)],
+        // string definitions too: a comment (whatever it contains) after a string must not become part of the data
+        data: vec![b::db(Some("x"), 5), b::dw(Some("y"), 0x1234), DataDef::Str(Some("s".into()), W::B, "AB".into()), DataDef::Str(Some("t".into()), W::W, "c d".into()), b::db(Some("z"), 9)],
         code: vec![
             b::label("start"),
             b::mov(b::r16("ax"), b::imm(7)),
@@ -591,7 +592,9 @@ pub fn run(tier: &Tier) -> i32 {
             b::mov(b::r16("ax"), b::imm(0)),
             b::label("fin"),
             b::print(PrintKind::Reg),
-            b::print(PrintKind::MemRange(0, 7)),
+            b::print(PrintKind::MemRange(0, 15)),
+            b::mov(b::r8("cl"), b::lab8("z")),
+            b::print(PrintKind::Reg),
         ],
     };
     let plain = render(&base);
